@@ -172,6 +172,13 @@ func mutate(s *simrt.Sim, doc []byte, other []byte, otherSameKey []byte) ([]byte
 	}
 }
 
+func first(b []byte) byte {
+	if len(b) == 0 {
+		return 0
+	}
+	return b[0]
+}
+
 func body(s *simrt.Sim, tier string) {
 	maxSegs := 2
 	if tier == "thorough" {
@@ -206,7 +213,51 @@ func body(s *simrt.Sim, tier string) {
 	mutated := doc
 	var what []string
 	srcFail := -1
-	switch k := s.Choose(10, "faultkind"); {
+	switch k := s.Choose(11, "faultkind"); {
+	case k == 10:
+		// a forgery: everything after the manifest (MAC and segments) is replaced by a MAC and segments
+		// computed under a file key of the forger's choosing, over a plaintext of the forger's choosing.
+		// The manifest still wraps the real file key; the vault is honest, or fails in one of its ways.
+		p0, err := refenc.Parse(doc)
+		if err != nil {
+			s.Fail("infra-refparse", err.Error())
+			return
+		}
+		fk2 := make([]byte, 32)
+		keyDesc := ""
+		switch s.Choose(3, "forgekey") {
+		case 0:
+			keyDesc = "the all-zero key"
+		case 1:
+			for i := range fk2 {
+				fk2[i] = 0xff
+			}
+			keyDesc = "the all-0xff key"
+		default:
+			for i := range fk2 {
+				fk2[i] = byte(17*i + 3)
+			}
+			keyDesc = "a key of its own"
+		}
+		forged := append([]byte{^first(pt)}, []byte("forged")...)
+		mutated, err = refenc.Encode(forged, fk2, p0.Manifest.NP, p0.Manifest.CPH, p0.ManifestLine)
+		if err != nil {
+			s.Fail("infra-refencode", err.Error())
+			return
+		}
+		w := "MAC and segments replaced by ones computed under " + keyDesc
+		switch s.Choose(4, "forgevault") {
+		case 1:
+			v.UnwrapErr = true
+			w += "; unwrap fails"
+		case 2:
+			v.UnwrapShort = true
+			w += "; unwrap returns a short key"
+		case 3:
+			v.UnwrapWrong = true
+			w += "; unwrap returns a different 32-byte key"
+		}
+		what = append(what, w)
 	case k < 6:
 		for i, n := 0, 1+s.Choose(2, "nmut"); i < n; i++ {
 			var w string
